@@ -9,7 +9,7 @@ RUST_COL = {"int": "i32", "opt": "Option<i32>"}
 RUST_LAT = {
     "max_i32": "i32", "dual_i32": "Dual<i32>", "set_i32": "Set<i32>", "bset2_i32": "BoundedSet<2, i32>",
     "opt_i32": "Option<i32>", "cp_i32": "ConstPropagation<i32>", "prod_max_dual": "Product<(i32, Dual<i32>)>",
-    "lex_pair": "(i32, i32)", "bool_or": "bool",
+    "lex_pair": "(i32, i32)", "lex_dual_pair": "(Dual<i32>, i32)", "bool_or": "bool",
 }
 NONCOPY = {"set_i32", "bset2_i32"}
 AGG_PATH = {"count": "ascent::aggregators::count", "sum": "ascent::aggregators::sum", "min": "ascent::aggregators::min",
